@@ -102,7 +102,12 @@ class iterable_loader(DataStreamProcessor):
     def process_datapackage(self, dp: Package):
         name = self.name
         if name is None:
-            name = 'res_{}'.format(len(dp.resources) + 1)
+            existing = set(res.name for res in dp.resources)
+            index = len(dp.resources) + 1
+            name = 'res_{}'.format(index)
+            while name in existing:
+                index += 1
+                name = 'res_{}'.format(index)
         self.res = Resource(dict(
             name=name,
             path='{}.csv'.format(name)
